@@ -134,13 +134,6 @@ def glueRun (basis : Array W) (args : List String) : String :=
       if st.out.isEmpty then "-" else " ".intercalate st.out.reverse
   | _ => "bad-op"
 
-/-- `strconv.ParseUint(s, 10, 64)`: digits only, non-empty, below 2^64 -/
-def parseUint64 (s : String) : Option Nat :=
-  let cs := s.toList
-  if cs.isEmpty || !cs.all Char.isDigit then none else
-  let n := cs.foldl (fun a c => a * 10 + (c.toNat - 48)) 0
-  if n < 2 ^ 64 then some n else none
-
 def handleGlue : Handler := fun st op args =>
   match op with
   | "glue" => some (st, glueRun st.basis args)
@@ -153,10 +146,24 @@ def handleGlue : Handler := fun st op args =>
     | ["levelcmd", l, ig, fo, h] =>
       match l.toInt?, (if h == "-" then some "" else (unhex h).bind String.fromUTF8?) with
       | some l, some arg =>
-        let (nl, rep) := levelCommand l (arg == "max") (parseUint64 arg) (ig == "1") (fo == "1")
+        let (nl, rep) := levelCommand l (arg == "max") (parseUintOpt arg) (ig == "1") (fo == "1")
         let cls := match rep with
           | .max => "max" | .bad => "none" | .unknown => "unknown" | .future => "future" | .now => "now"
         some (st, s!"{cls} {nl} {if rep == .now then 1 else 0}")
+      | _, _ => some (st, "bad-op")
+    | ["tell", k, l, ig, fo, h] =>
+      match l.toInt?, (if h == "-" then some "" else (unhex h).bind String.fromUTF8?) with
+      | some l, some msg =>
+        let (nl, out) := if k == "F" then friendlyTell l (ig == "1") (fo == "1") msg else (l, takticianTell (ig == "1") msg)
+        let cls := match out with
+          | .level .bad => "nothing"
+          | .level .max => "level:max" | .level .unknown => "level:unknown"
+          | .level .future => "level:future" | .level .now => "level:now"
+          | .help => "help"
+          | .seek sz => s!"seek:{sz}"
+          | .sizeSet sz => s!"sizeset:{sz}"
+          | .nothing => "nothing"
+        some (st, s!"{cls} {nl}")
       | _, _ => some (st, "bad-op")
     | ["cfg", v, s] =>
       match glueVariant v, s.toNat? with
